@@ -55,6 +55,16 @@ class BooleanOption(ConfigOption[bool]):
         if disables:
             group.add_argument(*disables, dest=self.name, help=self.description + formatDefault(self.value), action='store_false', default=None)
 
+    def setFromString(self, string: str):
+        """
+        In a config file a boolean is written yes/no, true/false, on/off or
+        1/0 (in any case), as in `ConfigParser.getboolean`.
+        """
+        try:
+            self.value = ConfigParser.BOOLEAN_STATES[string.lower()]
+        except KeyError:
+            raise ValueError("Not a boolean: {}".format(string))
+
 class MultiStringOption(ConfigOption[List[str]]):
     def registerArgparse(self, group: ArgumentGroup):
         group.add_argument(*self.options, dest=self.name, type=str, nargs="*", help=self.description, action="append")
